@@ -91,8 +91,15 @@ def sharedIn (tbl : List (String × String × String)) (c : Comp) : Bool := !(co
 def shared : Comp → Bool := sharedIn Gen.ShellFields.shellFields
 def fresh : Comp → Bool := freshIn Gen.ShellFields.shellFields
 
+def pathStr (p : List Str) : Str := if p.isEmpty then ['/'] else p.flatMap (fun c => '/' :: c)
+
+/-- `cd` records the directory left in `OLDPWD` and the new one in `PWD` -/
+def setDirVars (old new : List Str) (vars : List (Str × Var)) : List (Str × Var) :=
+  aset "PWD".toList { val := pathStr new, exported := true, readonly := false }
+    (aset "OLDPWD".toList { val := pathStr old, exported := true, readonly := false } vars)
+
 def defaultShell (cwd : List Str) : ShellPart :=
-  { vars := [], funcs := [], setopts := [], shopts := [], aliases := [], traps := [],
+  { vars := setDirVars ["?".toList] cwd [], funcs := [], setopts := [], shopts := [], aliases := [], traps := [],
     cwd := cwd, args := [], fds := [0, 1, 2] }
 
 /-- `Shell::clone`, component by component -/
@@ -167,6 +174,8 @@ def cdTarget (cwd : List Str) (t : Str) : List Str :=
   | ['.', '.'] => cwd.dropLast
   | _ => cwd ++ [t]
 
+def shoptDefault (o : Str) : Bool := o = "extglob".toList   -- brush starts with extglob on
+
 /-- result of one command on a `Shell` value -/
 structure Step where
   sh : ShellPart
@@ -200,8 +209,10 @@ def stepShell (root : List Str) (m : Mut) (s : ShellPart) : Step :=
     | none => { sh := s, status := 0 }
   | .defun f tag => { sh := { s with funcs := aset f tag s.funcs }, status := 0 }
   | .unsetf f => { sh := { s with funcs := adel f s.funcs }, status := 0 }
-  | .seto o b => { sh := { s with setopts := aset o b s.setopts }, status := 0 }
-  | .shopt o b => { sh := { s with shopts := aset o b s.shopts }, status := 0 }
+  -- options are kept canonically: only values that differ from the default are listed
+  | .seto o b => { sh := { s with setopts := if b then aset o b s.setopts else adel o s.setopts }, status := 0 }
+  | .shopt o b =>
+    { sh := { s with shopts := if b = shoptDefault o then adel o s.shopts else aset o b s.shopts }, status := 0 }
   | .alias n v => { sh := { s with aliases := aset n v s.aliases }, status := 0 }
   | .unalias n =>
     match aget n s.aliases with
@@ -212,7 +223,7 @@ def stepShell (root : List Str) (m : Mut) (s : ShellPart) : Step :=
     else { sh := { s with traps := aset sig act s.traps }, status := 0 }
   | .cd t =>
     let p := cdTarget s.cwd t
-    if dirExists root p then { sh := { s with cwd := p }, status := 0 } else { sh := s, status := 1, err := true }
+    if dirExists root p then { sh := { s with cwd := p, vars := setDirVars s.cwd p s.vars }, status := 0 } else { sh := s, status := 1, err := true }
   | .umask _ => { sh := s, status := 0 }
   | .ulimit _ => { sh := s, status := 0 }
   | .setargs as => { sh := { s with args := as }, status := 0 }
@@ -269,8 +280,6 @@ def onOff (b : Bool) : Str := if b then "on".toList else "off".toList
 def setoLine (o : Str) (s : ShellPart) : Str :=
   "o ".toList ++ o ++ [' '] ++ onOff ((aget o s.setopts).getD false)
 
-def shoptDefault (o : Str) : Bool := o = "extglob".toList   -- brush starts with extglob on
-
 def shoptLine (o : Str) (s : ShellPart) : Str :=
   "s ".toList ++ o ++ [' '] ++ onOff ((aget o s.shopts).getD (shoptDefault o))
 
@@ -285,8 +294,6 @@ def trapLines (sig : Str) (s : ShellPart) : List Str :=
   match aget sig s.traps with
   | none => []
   | some a => ["trap -- '".toList ++ a ++ "' ".toList ++ sigName sig]
-
-def pathStr (p : List Str) : Str := if p.isEmpty then ['/'] else p.flatMap (fun c => '/' :: c)
 
 def octDigits : Nat → Nat → Str
   | 0, _ => []
@@ -323,9 +330,10 @@ inductive Ctx
   | bg         -- `{ ms; D; } >f & wait $!`
   | procsub    -- `cat <( ms; D ) >f`
   | coproc     -- `coproc { ms; D >f; }; wait`
+  | pl         -- `m1 | … | { mk; } >f`: the last mutator is the last stage (runs in the parent under `lastpipe`)
   deriving DecidableEq, Repr
 
-def Ctx.all : List Ctx := [.paren, .cmdsub, .backq, .pipe, .stages, .bg, .procsub, .coproc]
+def Ctx.all : List Ctx := [.paren, .cmdsub, .backq, .pipe, .stages, .bg, .procsub, .coproc, .pl]
 
 /-- what the parent itself does before cloning: a coprocess gets two pipe ends in the parent's
 descriptor table (`open_files_mut().add` twice: lowest free numbers) -/
@@ -370,6 +378,23 @@ def runStages (sh fr : Comp → Bool) (root : List Str) : List Mut → ShellPart
 def stagesErr (fr : Comp → Bool) (root : List Str) (ms : List Mut) (p : ShellPart) : Bool :=
   ms.any (fun m => (stepShell root m (cloneWith fr p)).err)
 
+/-- a non-empty list as (all but the last, the last) -/
+def splitLast {α : Type} : List α → Option (List α × α)
+  | [] => none
+  | [x] => some ([], x)
+  | x :: y :: r => (splitLast (y :: r)).map (fun q => (x :: q.1, q.2))
+
+/-- `shopt -s lastpipe` in effect (job control is off in scripts and `-c`): `spawn_pipeline_processes`
+runs the last command of a pipeline in the current shell -/
+def lastpipeOn (p : ShellPart) : Bool := (aget "lastpipe".toList p.shopts).getD false
+
+/-- what the parent itself does in a context, as opposed to what the subshell bodies do: a
+coprocess's pipe ends (`prepare`), and under `lastpipe` the last stage of a pipeline -/
+def parentOwn (root : List Str) (c : Ctx) (ms : List Mut) (p : ShellPart) : ShellPart :=
+  match c, splitLast ms with
+  | .pl, some (init, l) => if lastpipeOn p || init.isEmpty then (stepShell root l p).sh else p
+  | _, _ => prepare c p
+
 /-- running `ms` in context `c` under parent `p`, for a given clone table -/
 def execWith (sh fr : Comp → Bool) (root : List Str) (c : Ctx) (ms : List Mut) (p : ShellPart) (w : World) : After :=
   let p0 := prepare c p
@@ -378,6 +403,19 @@ def execWith (sh fr : Comp → Bool) (root : List Str) (c : Ctx) (ms : List Mut)
     let r := runStages sh fr root ms p0 w
     let e := stagesErr fr root ms p0
     { shell := r.1, world := r.2, status := if e then 1 else 0, out := [], aborted := e }
+  | .pl =>
+    match splitLast ms with
+    | none => { shell := p0, world := w, status := 0, out := [] }
+    | some (init, l) =>
+      let r := runStages sh fr root init p0 w      -- the non-final stages, each on its own clone
+      let e := stagesErr fr root init p0
+      if lastpipeOn p0 || init.isEmpty then   -- (a pipeline of one command always runs in the current shell)
+        -- the last stage `{ l; }` runs on the parent itself; an `exit` there leaves the parent
+        let st := stepShell root l r.1
+        { shell := st.sh, world := stepWorld l r.2, status := st.status, out := st.out, aborted := e || st.exited }
+      else
+        let rr := runMuts root [l] { sh := cloneWith fr r.1, world := r.2 }
+        { shell := leakWith sh rr.sh r.1, world := rr.world, status := rr.status, out := rr.out, aborted := e }
   | _ =>
     let r := childRun fr root ms p0 w
     { shell := leakWith sh r.sh p0, world := r.world,
